@@ -166,18 +166,25 @@ pub fn run(o: &Opts) -> Report {
             impls.push(format!("{:?} {} {}", ab.get_action(), na, b01(a.is_required_set())));
         }
     }
-    // value enum
+    // value enum (a broken derive can make `to_possible_value` answer None for a listed variant: everything under catch_unwind)
     {
-        let variants: Vec<(usize, Vec<String>)> = Mode::value_variants().iter().enumerate().map(|(i, v)| { let pv = v.to_possible_value().unwrap(); (i, pv.get_name_and_aliases().map(|s| s.to_string()).collect()) }).collect();
+        let variants: Vec<(usize, Vec<String>)> = Mode::value_variants().iter().enumerate().map(|(i, v)| {
+            let names = std::panic::catch_unwind(|| v.to_possible_value().map(|pv| pv.get_name_and_aliases().map(|s| s.to_string()).collect::<Vec<_>>()));
+            match names { Ok(Some(ns)) => (i, ns), _ => { rep.oracle_fail("value-enum-variant-without-possible-value", &format!("Mode variant #{i} {v:?}"), "to_possible_value() is None or panics for a variant listed by value_variants()"); (i, vec![]) } } }).collect();
+        // names the DECLARATION gives each listed variant (what must map back), independent of the derive's own tables
+        let declared: [(Mode, &[&str]); 4] = [(Mode::Fast, &["fast"]), (Mode::Slow, &["slow", "s", "slowly"]), (Mode::Auto, &["auto-mode"]), (Mode::Last, &["last", "LAST"])];
+        for (variant, names) in declared { for nm in names {
+            rep.count("value_enum_names");
+            let r = std::panic::catch_unwind(|| Mode::from_str(nm, false));
+            match r { Ok(Ok(v)) if v == variant => {}, other => rep.oracle_fail("value-enum-name-does-not-map-back", &format!("Mode name {nm:?}"), &format!("from_str gave {other:?}, expected {variant:?}")) }
+            let r2 = std::panic::catch_unwind(|| Big::try_parse_from(["big", "--req", "r", "--mode", nm]).map(|b| b.mode));
+            match r2 { Ok(Ok(Some(v))) if v == variant => {}, other => rep.oracle_fail("value-enum-name-does-not-map-back", &format!("--mode {nm}"), &format!("parsed {:?}, expected {variant:?}", other.map(|x| x.map_err(|e| e.kind())))) }
+        } }
         let enc = format!("{}{}", variants.len(), variants.iter().map(|(i, ns)| format!(" {i} {}{}", ns.len(), ns.iter().map(|n| format!(" {}", h(n))).collect::<String>())).collect::<String>());
         let mut inputs: Vec<String> = variants.iter().flat_map(|(_, ns)| ns.clone()).collect();
         inputs.extend(["FAST", "Slow", "internal", "auto", "S", "last", "LAST", "", "fas"].iter().map(|s| s.to_string()));
-        for (i, ns) in &variants { for nm in ns {
-            rep.count("value_enum_names");
-            match Mode::from_str(nm, false) { Ok(v) if v == Mode::value_variants()[*i] => {}, other => rep.oracle_fail("value-enum-name-does-not-map-back", &format!("Mode name {nm:?}"), &format!("from_str gave {other:?}, expected {:?}", Mode::value_variants()[*i])) }
-        } }
         for inp in &inputs { for ic in [false, true] {
-            let real = match Mode::from_str(inp, ic) { Ok(v) => Mode::value_variants().iter().position(|x| *x == v).unwrap().to_string(), Err(_) => "none".into() };
+            let real = match std::panic::catch_unwind(|| Mode::from_str(inp, ic)) { Ok(Ok(v)) => Mode::value_variants().iter().position(|x| *x == v).unwrap().to_string(), Ok(Err(_)) => "none".into(), Err(_) => "PANIC".into() };
             reqs.push(format!("venum {enc} {} {}", h(inp), b01(ic))); impls.push(real); keys.push(format!("Mode::from_str({inp:?}, {ic})"));
         } }
     }
@@ -188,7 +195,7 @@ pub fn run(o: &Opts) -> Report {
         let key = format!("Big#{ci} argv={argv:?}");
         rep.case(&key, argv.len() >= 4);
         let parsed = std::panic::catch_unwind(|| Big::try_parse_from(argv.clone()));
-        let matches = Big::command().try_get_matches_from(argv.clone());
+        let matches = match std::panic::catch_unwind(|| Big::command().try_get_matches_from(argv.clone())) { Ok(m) => m, Err(_) => { rep.oracle_fail("derive-panics", &key, "command().try_get_matches_from panicked"); continue; } };
         match (&parsed, &matches) {
             (Err(_), _) => { rep.oracle_fail("derive-panics", &key, "try_parse_from panicked"); continue; }
             (Ok(p), m) if p.is_ok() != m.is_ok() => { rep.oracle_fail("parse-differs-from-command", &key, &format!("try_parse_from ok={} command ok={}", p.is_ok(), m.is_ok())); continue; }
@@ -222,7 +229,7 @@ pub fn run(o: &Opts) -> Report {
             for _ in 0..l { a.push(rng.pick(&pool[..]).to_string()); }
             let key2 = format!("Big argv={a:?}");
             let pr = std::panic::catch_unwind(|| Big::try_parse_from(a.clone()));
-            let mr = Big::command().try_get_matches_from(a.clone());
+            let mr = match std::panic::catch_unwind(|| Big::command().try_get_matches_from(a.clone())) { Ok(m) => m, Err(_) => { rep.oracle_fail("derive-panics", &key2, "command().try_get_matches_from panicked"); continue; } };
             rep.case(&key2, a.len() >= 4); rep.count("arbitrary_argv");
             match pr {
                 Err(_) => rep.oracle_fail("derive-panics", &key2, "try_parse_from panicked"),
